@@ -244,7 +244,14 @@ def readFromStream(substrate, size=-1, context=None):
             raise error.EndOfStreamError(context=context)
 
         elif len(received) < size:
-            substrate.seek(-len(received), os.SEEK_CUR)
+            # a short read: either the rest is yet to come or the stream
+            # has ended in the middle of what is being read
+            more = substrate.read(1)
+
+            if more is not None and not more:
+                raise error.EndOfStreamError(context=context)
+
+            substrate.seek(-len(received) - len(more or ''), os.SEEK_CUR)
 
             # behave like a non-blocking stream
             yield error.SubstrateUnderrunError(context=context)
